@@ -482,5 +482,15 @@ func (g *FnGen) vacuityObligations() []*Obligation {
 	}
 	o := &Obligation{Name: g.key + "/vacuity.exit", Fn: g.key, Kind: "vacuity", NLines: len(g.lines), Reach: "(or " + strings.Join(reaches, " ") + " false)", Goal: "false", gen: g}
 	out = append(out, o)
+	// exceptional exits must be reachable too, or every xpost obligation is vacuous
+	if g.wantX() {
+		var xr []string
+		for _, x := range g.xexits {
+			xr = append(xr, x.reach)
+		}
+		if len(xr) > 0 {
+			out = append(out, &Obligation{Name: g.key + "/vacuity.xexit", Fn: g.key, Kind: "vacuity", NLines: len(g.lines), Reach: "(or " + strings.Join(xr, " ") + " false)", Goal: "false", gen: g})
+		}
+	}
 	return out
 }
